@@ -1,3 +1,4 @@
+pub mod btor2in;
 pub mod json;
 pub mod reach;
 pub mod shrink;
